@@ -182,7 +182,10 @@ with cv_property (ev : env) (path : list str) (inoneof : bool) (num : N) (p : pr
         if req && opt then Err "cannot be both required and optional"
         else if inoneof && opt
         then Err "optional oneof member"   (* outside the language; see notes/cmpa.md *)
-        else Ok (mkPres [mkField sn n num ty lbl opt tn inoneof] msgs (fc_enums c)
+        (* fix d536c9b: proto3_optional (and the synthetic oneof) only when the label is not
+           REPEATED - an optional array or map is a plain repeated field *)
+        else Ok (mkPres [mkField sn n num ty lbl (opt && negb (plabel_eqb lbl LRepeated)) tn inoneof]
+                        msgs (fc_enums c)
                         (imps ++ if req then [imp_validate; imp_ext] else [])) in
       match f with
       | FArray it =>
